@@ -269,11 +269,28 @@ def judge (g : Graph) (ops : List Json) (o : Json) : Option String :=
             | none => go (i + 1) (some ob) exempt (ops.drop 1) rest
   go 0 none [] ops obs
 
+/-- J0: queue membership against the CONFIGURATION: `expect_queue` = [[task, queue]..] is computed by the harness from
+the flow.cylc text (the queue member lists with every family name expanded over the FULL inheritance of the
+`[runtime]` sections - a task belongs to a family if the family is any of its ancestors, first parent or not; the
+last queue that lists a task wins, else `default`); the queue manager (`graph.queues`, read off the real
+`IndepQueueManager`) must put every task into exactly that queue -/
+def judgeMembership (g : Graph) (i : Json) : Option String :=
+  firstSome ((jArrField? i "expect_queue").getD []) fun e =>
+    match jArr? e with
+    | some [t, qn] =>
+      match jStr? t, jStr? qn with
+      | some t, some qn =>
+        let got := (g.queues.filter fun q => q.members.contains t).map (·.name)
+        if got == [qn] then none
+        else some s!"queue membership: task {t} belongs to queue {qn} by the configuration (queue member lists with families expanded over the full inheritance), but the queue manager has it in {got}"
+      | _, _ => none
+    | _ => none
+
 def handle (i o : Json) : Except String Reply := do
   if let some r := crashReply? i then return r
   let c ← parseCase i
   let ops := (jArrField? i "ops").getD []
-  match judge c.graph ops o with
+  match (judgeMembership c.graph i).orElse fun _ => judge c.graph ops o with
   | some w => return { model := modelObs c, holds := false, why := w }
   | none => return { model := modelObs c, holds := true }
 
